@@ -118,6 +118,11 @@ impl Hist for C09 {
                         v.push(Ev::Inc(g, d));
                     }
                 }
+                // a second update at the same instant: the estimator cannot sample it (no time has
+                // passed), so the position runs ahead of what the estimator has seen
+                for d in DELTAS {
+                    v.push(Ev::Inc(0, d));
+                }
                 v.extend([Ev::ResetEta, Ev::Reset, Ev::ResetElapsed, Ev::Finish, Ev::Abandon]);
                 // a backwards seek needs a position to go back from
                 let mut pos = 0u64;
@@ -238,19 +243,24 @@ impl Hist for C09 {
                 // documented double smoothing (reference recurrences): the reported rate rises at the
                 // start of a stall iff the single-smoothed level is above the double-smoothed one
                 let (mut s1, mut s2, mut prev_t, mut start_t, mut t) = (0.0f64, 0.0f64, 0.0f64, 0.0f64, 0.0f64);
+                // steps of updates that arrived with no time elapsed are sampled with the next update
+                let mut pending = 0.0f64;
                 for e in hist {
                     match e {
+                        Ev::Inc(0, d) => pending += *d as f64,
                         Ev::Inc(g, d) => {
                             t += *g as f64 / 1e9;
                             let dt = t - prev_t;
                             let w = 0.1f64.powf(dt / 15.0);
-                            s1 = s1 * w + (*d as f64 / dt) * (1.0 - w);
+                            s1 = s1 * w + ((*d as f64 + pending) / dt) * (1.0 - w);
+                            pending = 0.0;
                             let tw = 1.0 - 0.1f64.powf((t - start_t) / 15.0);
                             s2 = s2 * w + (s1 / tw) * (1.0 - w);
                             prev_t = t;
                         }
                         _ => {
                             t += 1.0;
+                            pending = 0.0;
                             s1 = 0.0;
                             s2 = 0.0;
                             prev_t = t;
@@ -337,7 +347,7 @@ pub fn meta(tier: Tier) -> Meta {
     let (d, ds) = if tier == Tier::Quick { (4, 5) } else { (6, 8) };
     Meta {
         level: "model_checking",
-        rule: format!("virtual-time histories on a hidden bar of length 1e18: every sequence of <= {d} events from (gap in {{1 ms,7 ms,1 s,15 s,1 h,1 d}}) x inc({{1,1e3,1e9}}) plus reset_eta/reset/reset_elapsed/backwards seek/finish, and every steady-rate gap sequence of <= {ds} updates for rates 1,1e3,1e6,1e12 per second; after every history per_sec/eta/duration/elapsed are read at 8 instants from +1 ns to +30 d with the clock frozen; laws L1-L6 incl. a differential fresh-bar oracle for forgetfulness; a state is the vector of reported rates; non-trivial = at least one progress sample since the last reset"),
+        rule: format!("virtual-time histories on a hidden bar of length 1e18: every sequence of <= {d} events from (gap in {{0,1 ms,7 ms,1 s,15 s,1 h,1 d}}) x inc({{1,1e3,1e9}}) (gap 0 = an update the estimator cannot sample) plus reset_eta/reset/reset_elapsed/backwards seek/finish, and every steady-rate gap sequence of <= {ds} updates for rates 1,1e3,1e6,1e12 per second; after every history per_sec/eta/duration/elapsed are read at 8 instants from +1 ns to +30 d with the clock frozen; laws L1-L6 incl. a differential fresh-bar oracle for forgetfulness; a state is the vector of reported rates; non-trivial = at least one progress sample since the last reset"),
         assumptions: vec!["virtual clock by clock_gettime interposition; queries move the clock forward and back without touching the bar".into(), "L4 split: a rise during a stall that begins with the estimate below the newest sample's rate is the documented double-smoothing behaviour (known finding); everything else is a violation".into()],
         bounds: json!({"depth_transient": d, "depth_steady": ds, "query_offsets_ns": QUERIES}),
         exhaustive: true,
